@@ -805,7 +805,15 @@ func (ev *Evaluator) instr(env map[ssa.Value]Val, in ssa.Value) (Val, error) {
 		x, idx = rebaseSlice(x, idx)
 		return Elem{Base: x, Index: idx}, nil
 	case *ssa.MakeSlice:
-		return Sym{"make"}, nil
+		// make([]T, 0, cap): a fresh empty sequence; any other length: that many zero elements, kept as a term
+		l, err := ev.val(env, in.Len)
+		if err != nil {
+			return nil, err
+		}
+		if c, ok := l.(Const); ok && c.V != nil && c.V.Kind() == constant.Int && constant.Sign(c.V) == 0 {
+			return Sym{"make"}, nil
+		}
+		return Term{Fn: "make", Args: []Val{l}}, nil
 	case *ssa.Lookup:
 		x, err := ev.val(env, in.X)
 		if err != nil {
